@@ -6,6 +6,19 @@ sys.path.insert(0, os.path.join(os.path.dirname(os.path.abspath(__file__)), '..'
 import e1check
 
 
+# share (out of 10) of the cases that run with agent=task: a live runtime per case costs about 15-40 ms
+# of CPU against < 1 ms for an OS-thread case, so the thorough tier (400000 cases) uses a smaller share
+TASK_SHARE = 1 if e1check.tier() == 'thorough' else 3
+
+# finding call-once-rethrow-after-yield: is the repair (fix commit on hooks-C09p: call_once leaves its catch
+# handler before it stores / sets / rethrows) present in the tree under test?
+_once_hpp = os.path.join(os.environ.get('VERIF_REPO', '/repo'), 'libs/pika/synchronization/include/pika/synchronization/once.hpp')
+try:
+    ONCE_REPAIRED = 'std::rethrow_exception(ep)' in open(_once_hpp).read()
+except OSError:
+    ONCE_REPAIRED = False
+
+
 def split_updates(rng, total):
     """split `total` into a list of updates (some of them 0 or > 1: count_down(n))"""
     ups = []
@@ -69,12 +82,37 @@ def gen_once(rng, cid):
 
 def gen(rng, cid):
     kind = rng.weighted([('latch', 5), ('event', 2), ('once', 3)])
-    return {'latch': gen_latch, 'event': gen_event, 'once': gen_once}[kind](rng, cid)
+    txt = {'latch': gen_latch, 'event': gen_event, 'once': gen_once}[kind](rng, cid)
+    if rng.below(10) < TASK_SHARE:
+        # follow-up C09p: every model thread is a pika task of a live runtime (n + 1 workers); blocking
+        # goes through pika's own task agent (real suspension / set_thread_state wake-up)
+        head, rest = txt.split('\n', 1)
+        extra = ' agent=task'
+        if rng.below(2) == 0:
+            # lean variant: also the wait for the baton is a real suspension, so no task ever blocks a worker
+            # and the n tasks run on W = 1..3 workers (mostly fewer workers than participants).  call_once
+            # cases are pinned to one worker on the unrepaired tree: with W > 1 a failed winner that is
+            # suspended inside call_once' catch handler can be resumed by another worker and its `throw;`
+            # then terminates the process (finding call-once-rethrow-after-yield, replayed below)
+            extra += ' workers=%d' % (1 if (kind == 'once' and not ONCE_REPAIRED) else 1 + rng.below(3))
+        txt = head + extra + '\n' + rest
+    return txt
 
 
 def nontrivial(c, r):
     # some thread really blocked on the condition variable, or (call_once) lost the CAS
     return ' cv.enq ' in r['raw'] or ' once.lost ' in r['raw']
+
+
+def task_stats(c, raw):
+    if ' agent=task' not in c.split('\n')[0]:
+        return {}
+    import re
+    m = re.search(r'^\d+ tk\.stat \d+ (\d+) (\d+)$', raw, flags=re.M)
+    return {'cases_task_agent': 1, 'task_real_suspensions': int(m.group(1)) if m else 0,
+            'task_resumes_of_active_task': int(m.group(2)) if m else 0,      # wake-up carried by pika's set_active_state helper
+            'task_fallback_to_os_agent': raw.count(' tk.fallback '),
+            'cases_task_fewer_workers_than_tasks': 1 if (re.search(r' workers=(\d+)', c.split('\n')[0]) and int(re.search(r' workers=(\d+)', c.split('\n')[0]).group(1)) < c.count('\nthread ')) else 0}         # inconclusive live runs (expected 0)
 
 
 def stats(c, r):
@@ -84,16 +122,18 @@ def stats(c, r):
             'notify_all_resumes': raw.count(' cv.popall '),
             'latch_window_waits': raw.count(' latch.mustwait 1 0 0'),   # counter already 0, notified_ not yet set
             'once_lost': raw.count(' once.lost '), 'once_failed_runs': raw.count(' once.stored 1 0 '),
-            'spins': raw.count(' ag.yield '), 'deadlock_end': 1 if 'end deadlock' in raw else 0}
+            'spins': raw.count(' ag.yield '), 'deadlock_end': 1 if 'end deadlock' in raw else 0, **task_stats(c, raw)}
 
 
 e1check.run(dict(
     prop='C09L', props='C09', model='c09l', harness='e1/c09l.cpp', bin='e1_c09l', gen=gen, nontrivial=nontrivial, stats=stats,
-    quick=10000, thorough=400000, extra=20000,
-    rule='random programs on one object, callers on OS threads under the baton: latch (2-6 threads, initial count 0-6, count_down(n)/arrive_and_wait(n) updates summing to exactly / less than / more than the count, wait, try_wait), event (2-5 threads, wait/set/occurred, a third of the cases with reset), call_once (2-6 threads, 1-2 calls each, callable throwing with probability 0..1); PRNG schedules (uniform / priority / sticky); non-trivial = at least one thread enqueued on the condition variable or lost the call_once CAS; distinct = distinct (program, schedule seed) text',
-    corr_name='E1 log of harness/e1/c09l.cpp (real pika::latch / event / call_once) accepted by the Lean acceptors Latch.step / Once.step',
+    quick=8000, thorough=400000, extra=20000,
+    rule='random programs on one object under the baton, callers on OS threads (agent=os) or - 30 % of the quick cases, 10 % of the thorough cases - on pika tasks of a live runtime with n + 1 workers whose blocking goes through pika\'s own task agent (agent=task: real suspension of the task, wake-up by set_thread_state, lost real wake-up declared from runtime state): latch (2-6 threads, initial count 0-6, count_down(n)/arrive_and_wait(n) updates summing to exactly / less than / more than the count, wait, try_wait), event (2-5 threads, wait/set/occurred, a third of the cases with reset), call_once (2-6 threads, 1-2 calls each, callable throwing with probability 0..1); PRNG schedules (uniform / priority / sticky); non-trivial = at least one thread enqueued on the condition variable or lost the call_once CAS; distinct = distinct (program, schedule seed) text',
+    corr_name='E1 log of harness/e1/c09l.cpp (real pika::latch / event / call_once, callers on OS threads or on pika tasks) accepted by the Lean acceptors Latch.step / Once.step',
     trusted_extra=['log parser of lean/Driver/LatchDrv.lean / OnceDrv.lean: grant lines of preemption points that carry no state change are dropped as stutter (latch.count_down, latch.inlock, event.wait, event.set, event.inlock, once.cas, once.reset, once.done, once.fail) and cv.pop / cv.all are merged with the agent resume lines that follow them inside the same atomic block',
                    'try_wait / reset / occurred are one-line functions that cannot take an add-only hook: the harness invocation point is the preemption point in front of their single atomic access'],
+    findings=([] if ONCE_REPAIRED else [dict(id='call-once-rethrow-after-yield', case='findings/C09-call-once-rethrow-after-yield.case',
+                                             signature='crash exit=255')]),
     assumptions=['barrier part of C09 is checked separately (Props/C09Barrier.lean)',
                  'the execution agent resumes a suspended thread only after a resume call (no spurious wake-ups): latch::wait calls cond_.wait once without re-checking'],
 ))
